@@ -332,6 +332,7 @@ type Spec struct {
 	Inline int
 
 	nextInline int
+	paramRoot  map[types.Object]types.Object // parameter of a callee being analysed in context -> the caller's variable it stands for
 	nextFn     *core.FuncInfo // function the next run analyses (CallPoint.Fn)
 	litOwner   *core.FuncInfo // declared function enclosing the literal the next runLit analyses
 	inlining   map[*types.Func]bool
@@ -374,6 +375,19 @@ func (sp *Spec) runLit(pkg *packages.Package, lit *ast.FuncLit, depth int, quiet
 type sumKey struct {
 	f *types.Func
 	d int
+}
+
+// RootOf: while a callee is analysed in its caller's context, the caller's variable that parameter o stands for
+// (o itself otherwise). For rules that identify "the context of this call", "the data slice", ... by object.
+func (sp *Spec) RootOf(o types.Object) types.Object {
+	for i := 0; i < 8; i++ {
+		r, ok := sp.paramRoot[o]
+		if !ok || r == o {
+			return o
+		}
+		o = r
+	}
+	return o
 }
 
 // Analyze runs the engine over a declared function.
@@ -749,6 +763,18 @@ func (r *runner) block(b *cfg.Block, st *State) []*State {
 					for _, t := range r.classify(c, core.Callee(r.info, c)) {
 						if !strings.HasPrefix(t, "-") && !strings.HasPrefix(t, "#") {
 							r.addTag(st, "arm:"+t)
+						}
+					}
+				}
+				// a channel obtained earlier from a classified call (timeout := After(d); case <-timeout:)
+				if id, ok := m.(*ast.Ident); ok {
+					if o := r.info.Uses[id]; o != nil {
+						if or := st.Def[o]; or != nil {
+							for _, t := range or.Tags {
+								if !strings.HasPrefix(t, "-") && !strings.HasPrefix(t, "#") {
+									r.addTag(st, "arm:"+t)
+								}
+							}
 						}
 					}
 				}
@@ -1330,6 +1356,18 @@ func (r *runner) call(b *cfg.Block, c *ast.CallExpr, st *State, valueUsed bool) 
 		r.origins[c] = or
 	}
 	or.Tags = r.classify(c, callee)
+	if callee == nil && r.fi != nil && len(or.Tags) == 0 {
+		// a function value taken out of a dispatch table: what any of the table's functions would be
+		seenTag := map[Tag]bool{}
+		for _, t := range r.sp.W.TableTargets(r.fi, c) {
+			for _, tg := range r.classify(c, t) {
+				if !seenTag[tg] {
+					seenTag[tg] = true
+					or.Tags = append(or.Tags, tg)
+				}
+			}
+		}
+	}
 	if r.record && len(or.Tags) > 0 {
 		r.res.Calls = append(r.res.Calls, &CallPoint{Call: c, Callee: callee, Tags: or.Tags, Before: st.copy(), InLoop: r.inLoop[b], Fn: r.fi})
 	}
@@ -1399,6 +1437,60 @@ func (r *runner) call(b *cfg.Block, c *ast.CallExpr, st *State, valueUsed bool) 
 				}
 			}
 		}
+		// parameters that receive one of the caller's variables unchanged (and are never reassigned in the callee)
+		// stand for that variable while the callee is analysed: RootOf
+		var aliased []types.Object
+		if sig, ok := callee.Type().(*types.Signature); ok && fi.Decl.Type.Params != nil && !sig.Variadic() {
+			var params []types.Object
+			for _, fld := range fi.Decl.Type.Params.List {
+				for _, nm := range fld.Names {
+					params = append(params, fi.Pkg.TypesInfo.Defs[nm])
+				}
+			}
+			reassigned := map[types.Object]bool{}
+			ast.Inspect(fi.Decl.Body, func(n ast.Node) bool {
+				switch x := n.(type) {
+				case *ast.AssignStmt:
+					for _, l := range x.Lhs {
+						if id, ok := ast.Unparen(l).(*ast.Ident); ok {
+							if o := fi.Pkg.TypesInfo.Uses[id]; o != nil {
+								reassigned[o] = true
+							}
+						}
+					}
+				case *ast.UnaryExpr:
+					if x.Op == token.AND {
+						if id, ok := ast.Unparen(x.X).(*ast.Ident); ok {
+							if o := fi.Pkg.TypesInfo.Uses[id]; o != nil {
+								reassigned[o] = true
+							}
+						}
+					}
+				}
+				return true
+			})
+			for i, a := range c.Args {
+				if i >= len(params) || params[i] == nil || reassigned[params[i]] {
+					continue
+				}
+				if id, ok := ast.Unparen(a).(*ast.Ident); ok {
+					if src := r.info.Uses[id]; src != nil {
+						if _, isVar := src.(*types.Var); isVar {
+							if r.sp.paramRoot == nil {
+								r.sp.paramRoot = map[types.Object]types.Object{}
+							}
+							r.sp.paramRoot[params[i]] = r.sp.RootOf(src)
+							aliased = append(aliased, params[i])
+						}
+					}
+				}
+			}
+		}
+		defer func() {
+			for _, p := range aliased {
+				delete(r.sp.paramRoot, p)
+			}
+		}()
 		if r.sp.inlining == nil {
 			r.sp.inlining = map[*types.Func]bool{}
 		}
